@@ -409,6 +409,8 @@ func init() {
 		okf := e.D.uf(name+"_ok", []string{sStr}, sBool, m)
 		er := e.D.fresh("mierr", sIface)
 		st.define(tImplies(tEq(er, "nilI"), tAnd(tEq(u, xt), okf, tNot(tEq(m, "nilStr")))))
+		// values that came out of a protobuf Any of a registered type can always be packed again
+		st.define(tImplies(e.D.uf("spec_marshalable", []string{sIface}, sBool, xt), tEq(er, "nilI")))
 		return one(st, Val{K: kTuple, Elems: []Val{e.wrapTerm(bytesType, m), termVal(errType, sIface, er)}})
 	}
 	intrinsicsByName[cdc+"MustUnmarshal"] = func(e *Env, st *State, args []Val, rt types.Type, c *ssa.CallCommon) []Out {
